@@ -53,6 +53,7 @@ def logic_input_parser(x, y):
         x = '' if isinstance(y, str) else 0
     if y is sh.EMPTY:
         y = '' if isinstance(x, str) else 0
+    x, y = (v.upper() if isinstance(v, str) else v for v in (x, y))
     return (_get_type_id(x), x), (_get_type_id(y), y)
 
 
